@@ -73,6 +73,16 @@ func runOracles(res *Result, prop string, c *Case) {
 		oracleC04(res, c)
 	case "C14":
 		oracleC14(res, c)
+	case "C03":
+		oracleC03(res, c)
+	case "C12":
+		oracleC12(res, c)
+	case "C06":
+		oracleC06(res, c)
+	case "C09":
+		oracleC09(res, c, len(c.ID))
+	case "C15":
+		oracleC15(res, c)
 	}
 }
 
